@@ -19,6 +19,7 @@ CONSTANTS
   DevRateKeyHeader = FALSE
   DevRefundOnRefusal = FALSE
   RateBad = FALSE
+  DevTrimValues = FALSE
   DevRawNewlines = FALSE
 INVARIANTS C27_Refused C27_NoEffect C28_Admission C28_BeforeBody C28_Rate C29_RoundTrip C29_ListComplete
 VIEW View
